@@ -1157,6 +1157,9 @@ impl Sys for RawSys {
     fn abort_verdict(_cfg: &RawCfg, op: &RawOp) -> (String, String) {
         ("C01".into(), format!("{}||process_abort", op.kind()))
     }
+    fn op_timeout_ms(_cfg: &RawCfg) -> u64 {
+        60_000
+    }
 }
 
 impl RawSys {
